@@ -177,7 +177,9 @@ class Runtime:
            clause; ("SIG", i, sig, outcome) for every user-signal offer that reaches a
            clause (outcome handle|trans|decline)
   offers   (i, sig) for every invocation with a user signal, in order
-  raw      every invocation: (signal_name, i, status) (REFLECTION excluded)
+  raw      (when keep_raw) the invocation stream: ("call", signal_name, i),
+           ("act", kind, detail) for handler-side actions, ("ret", signal_name, i, status,
+           is_user_signal); REFLECTION excluded
   """
 
   def __init__(self, spec, on_action=None, budget=30):
@@ -236,6 +238,8 @@ def build(spec, decorate=None, on_action=None, budget=30):
       raise HarnessBound("handler call bound exceeded")
     sig = e.signal
     status = None
+    if rt.keep_raw and sig != REFL:
+      rt.raw.append(("call", e.signal_name, i))
     if sig == ENTRY:
       if has_entry[i]:
         rt.log.append(("ENTRY", i))
@@ -282,7 +286,7 @@ def build(spec, decorate=None, on_action=None, budget=30):
       chart.temp.fun = chart.top if p == -1 else fns[p]
       status = SUPER
     if rt.keep_raw and sig != REFL:
-      rt.raw.append((e.signal_name, i, status))
+      rt.raw.append(("ret", e.signal_name, i, status, sig in signums))
     return status
 
   def make(i):
@@ -295,8 +299,23 @@ def build(spec, decorate=None, on_action=None, budget=30):
   for i in range(spec["n"]):
     h = make(i)
     rt.inner.append(h)
-    fns.append(deco(h) if decorate else h)
+    if decorate == "other":
+      fns.append(passthrough(h))
+    else:
+      fns.append(deco(h) if decorate else h)
   return rt
+
+
+def passthrough(fn):
+  """A user decorator that is not the instrumentation decorator (functools.wraps style)."""
+  import functools
+
+  @functools.wraps(fn)
+  def counted(chart, e):
+    counted.calls += 1
+    return fn(chart, e)
+  counted.calls = 0
+  return counted
 
 
 def bounded(cls):
